@@ -350,6 +350,8 @@ fn classify_case<const D: usize>(assign: [u8; NS], pattern: usize) {
     kani::cover!(true, "reached end");
 }
 
+/// (NOT RUN: every instance of this harness ran CBMC out of memory; kept for reference, see DESIGN
+/// section 0.  The claim is assembled from read_site_wiring + classify + the project.rs harnesses.)
 /// C02: the values a projected site adds: Π_j H(t_j, a_j, m_j, k_j) at every k of shape (m_j+1),
 /// with the target m concrete (it sizes the output) and the pmf replaced by the table `h_stub`.
 fn projected_values_case<const D: usize, const M: usize>(assign: [u8; NS], m: [usize; D], pattern: usize) {
@@ -861,150 +863,6 @@ stubs_h!(read_site_classify_d3_a321_p6, stub_npop_3, 8, classify_case::<3>([3, 2
 
 // @harness props=C02,C11,C10 tier=thorough bounds=populations=3,samples=3,assignment=[3,2,1],called-pattern=111,target=symbolic-0..2*size,allele-counts=symbolic,dirty-pre-state timeout=900
 stubs_h!(read_site_classify_d3_a321_p7, stub_npop_3, 8, classify_case::<3>([3, 2, 1], 7));
-
-// @harness props=C02,C11 tier=quick group=f64 bounds=populations=1,samples=3,assignment=[1,1,0],target=[1],called-pattern=101,allele-counts=symbolic,pmf=table-stub timeout=900
-stubs_h!(#[kani::stub(crate::utils::hypergeometric_pmf, h_stub)] read_site_projected_values_a110_m1_p5, stub_npop_1, 8, projected_values_case::<1, 2>([1, 1, 0], [1], 5));
-
-// @harness props=C02,C11 tier=quick group=f64 bounds=populations=1,samples=3,assignment=[1,1,0],target=[1],called-pattern=110,allele-counts=symbolic,pmf=table-stub timeout=900
-stubs_h!(#[kani::stub(crate::utils::hypergeometric_pmf, h_stub)] read_site_projected_values_a110_m1_p6, stub_npop_1, 8, projected_values_case::<1, 2>([1, 1, 0], [1], 6));
-
-// @harness props=C02,C11 tier=quick group=f64 bounds=populations=1,samples=3,assignment=[1,1,0],target=[1],called-pattern=111,allele-counts=symbolic,pmf=table-stub timeout=900
-stubs_h!(#[kani::stub(crate::utils::hypergeometric_pmf, h_stub)] read_site_projected_values_a110_m1_p7, stub_npop_1, 8, projected_values_case::<1, 2>([1, 1, 0], [1], 7));
-
-// @harness props=C02,C11 tier=quick group=f64 bounds=populations=1,samples=3,assignment=[1,1,1],target=[2],called-pattern=001,allele-counts=symbolic,pmf=table-stub timeout=900
-stubs_h!(#[kani::stub(crate::utils::hypergeometric_pmf, h_stub)] read_site_projected_values_a111_m2_p1, stub_npop_1, 8, projected_values_case::<1, 3>([1, 1, 1], [2], 1));
-
-// @harness props=C02,C11 tier=quick group=f64 bounds=populations=1,samples=3,assignment=[1,1,1],target=[2],called-pattern=010,allele-counts=symbolic,pmf=table-stub timeout=900
-stubs_h!(#[kani::stub(crate::utils::hypergeometric_pmf, h_stub)] read_site_projected_values_a111_m2_p2, stub_npop_1, 8, projected_values_case::<1, 3>([1, 1, 1], [2], 2));
-
-// @harness props=C02,C11 tier=quick group=f64 bounds=populations=1,samples=3,assignment=[1,1,1],target=[2],called-pattern=011,allele-counts=symbolic,pmf=table-stub timeout=900
-stubs_h!(#[kani::stub(crate::utils::hypergeometric_pmf, h_stub)] read_site_projected_values_a111_m2_p3, stub_npop_1, 8, projected_values_case::<1, 3>([1, 1, 1], [2], 3));
-
-// @harness props=C02,C11 tier=quick group=f64 bounds=populations=1,samples=3,assignment=[1,1,1],target=[2],called-pattern=100,allele-counts=symbolic,pmf=table-stub timeout=900
-stubs_h!(#[kani::stub(crate::utils::hypergeometric_pmf, h_stub)] read_site_projected_values_a111_m2_p4, stub_npop_1, 8, projected_values_case::<1, 3>([1, 1, 1], [2], 4));
-
-// @harness props=C02,C11 tier=quick group=f64 bounds=populations=1,samples=3,assignment=[1,1,1],target=[2],called-pattern=101,allele-counts=symbolic,pmf=table-stub timeout=900
-stubs_h!(#[kani::stub(crate::utils::hypergeometric_pmf, h_stub)] read_site_projected_values_a111_m2_p5, stub_npop_1, 8, projected_values_case::<1, 3>([1, 1, 1], [2], 5));
-
-// @harness props=C02,C11 tier=quick group=f64 bounds=populations=1,samples=3,assignment=[1,1,1],target=[2],called-pattern=110,allele-counts=symbolic,pmf=table-stub timeout=900
-stubs_h!(#[kani::stub(crate::utils::hypergeometric_pmf, h_stub)] read_site_projected_values_a111_m2_p6, stub_npop_1, 8, projected_values_case::<1, 3>([1, 1, 1], [2], 6));
-
-// @harness props=C02,C11 tier=quick group=f64 bounds=populations=1,samples=3,assignment=[1,1,1],target=[2],called-pattern=111,allele-counts=symbolic,pmf=table-stub timeout=900
-stubs_h!(#[kani::stub(crate::utils::hypergeometric_pmf, h_stub)] read_site_projected_values_a111_m2_p7, stub_npop_1, 8, projected_values_case::<1, 3>([1, 1, 1], [2], 7));
-
-// @harness props=C02,C11 tier=thorough group=f64 bounds=populations=1,samples=3,assignment=[1,1,1],target=[4],called-pattern=001,allele-counts=symbolic,pmf=table-stub timeout=900
-stubs_h!(#[kani::stub(crate::utils::hypergeometric_pmf, h_stub)] read_site_projected_values_a111_m4_p1, stub_npop_1, 9, projected_values_case::<1, 5>([1, 1, 1], [4], 1));
-
-// @harness props=C02,C11 tier=thorough group=f64 bounds=populations=1,samples=3,assignment=[1,1,1],target=[4],called-pattern=010,allele-counts=symbolic,pmf=table-stub timeout=900
-stubs_h!(#[kani::stub(crate::utils::hypergeometric_pmf, h_stub)] read_site_projected_values_a111_m4_p2, stub_npop_1, 9, projected_values_case::<1, 5>([1, 1, 1], [4], 2));
-
-// @harness props=C02,C11 tier=thorough group=f64 bounds=populations=1,samples=3,assignment=[1,1,1],target=[4],called-pattern=011,allele-counts=symbolic,pmf=table-stub timeout=900
-stubs_h!(#[kani::stub(crate::utils::hypergeometric_pmf, h_stub)] read_site_projected_values_a111_m4_p3, stub_npop_1, 9, projected_values_case::<1, 5>([1, 1, 1], [4], 3));
-
-// @harness props=C02,C11 tier=thorough group=f64 bounds=populations=1,samples=3,assignment=[1,1,1],target=[4],called-pattern=100,allele-counts=symbolic,pmf=table-stub timeout=900
-stubs_h!(#[kani::stub(crate::utils::hypergeometric_pmf, h_stub)] read_site_projected_values_a111_m4_p4, stub_npop_1, 9, projected_values_case::<1, 5>([1, 1, 1], [4], 4));
-
-// @harness props=C02,C11 tier=thorough group=f64 bounds=populations=1,samples=3,assignment=[1,1,1],target=[4],called-pattern=101,allele-counts=symbolic,pmf=table-stub timeout=900
-stubs_h!(#[kani::stub(crate::utils::hypergeometric_pmf, h_stub)] read_site_projected_values_a111_m4_p5, stub_npop_1, 9, projected_values_case::<1, 5>([1, 1, 1], [4], 5));
-
-// @harness props=C02,C11 tier=thorough group=f64 bounds=populations=1,samples=3,assignment=[1,1,1],target=[4],called-pattern=110,allele-counts=symbolic,pmf=table-stub timeout=900
-stubs_h!(#[kani::stub(crate::utils::hypergeometric_pmf, h_stub)] read_site_projected_values_a111_m4_p6, stub_npop_1, 9, projected_values_case::<1, 5>([1, 1, 1], [4], 6));
-
-// @harness props=C02,C11 tier=thorough group=f64 bounds=populations=1,samples=3,assignment=[1,1,1],target=[4],called-pattern=111,allele-counts=symbolic,pmf=table-stub timeout=900
-stubs_h!(#[kani::stub(crate::utils::hypergeometric_pmf, h_stub)] read_site_projected_values_a111_m4_p7, stub_npop_1, 9, projected_values_case::<1, 5>([1, 1, 1], [4], 7));
-
-// @harness props=C02,C11 tier=quick group=f64 bounds=populations=2,samples=3,assignment=[1,2,1],target=[1,2],called-pattern=001,allele-counts=symbolic,pmf=table-stub timeout=900
-stubs_h!(#[kani::stub(crate::utils::hypergeometric_pmf, h_stub)] read_site_projected_values_a121_m12_p1, stub_npop_2, 10, projected_values_case::<2, 6>([1, 2, 1], [1, 2], 1));
-
-// @harness props=C02,C11 tier=quick group=f64 bounds=populations=2,samples=3,assignment=[1,2,1],target=[1,2],called-pattern=010,allele-counts=symbolic,pmf=table-stub timeout=900
-stubs_h!(#[kani::stub(crate::utils::hypergeometric_pmf, h_stub)] read_site_projected_values_a121_m12_p2, stub_npop_2, 10, projected_values_case::<2, 6>([1, 2, 1], [1, 2], 2));
-
-// @harness props=C02,C11 tier=quick group=f64 bounds=populations=2,samples=3,assignment=[1,2,1],target=[1,2],called-pattern=011,allele-counts=symbolic,pmf=table-stub timeout=900
-stubs_h!(#[kani::stub(crate::utils::hypergeometric_pmf, h_stub)] read_site_projected_values_a121_m12_p3, stub_npop_2, 10, projected_values_case::<2, 6>([1, 2, 1], [1, 2], 3));
-
-// @harness props=C02,C11 tier=quick group=f64 bounds=populations=2,samples=3,assignment=[1,2,1],target=[1,2],called-pattern=100,allele-counts=symbolic,pmf=table-stub timeout=900
-stubs_h!(#[kani::stub(crate::utils::hypergeometric_pmf, h_stub)] read_site_projected_values_a121_m12_p4, stub_npop_2, 10, projected_values_case::<2, 6>([1, 2, 1], [1, 2], 4));
-
-// @harness props=C02,C11 tier=quick group=f64 bounds=populations=2,samples=3,assignment=[1,2,1],target=[1,2],called-pattern=101,allele-counts=symbolic,pmf=table-stub timeout=900
-stubs_h!(#[kani::stub(crate::utils::hypergeometric_pmf, h_stub)] read_site_projected_values_a121_m12_p5, stub_npop_2, 10, projected_values_case::<2, 6>([1, 2, 1], [1, 2], 5));
-
-// @harness props=C02,C11 tier=quick group=f64 bounds=populations=2,samples=3,assignment=[1,2,1],target=[1,2],called-pattern=110,allele-counts=symbolic,pmf=table-stub timeout=900
-stubs_h!(#[kani::stub(crate::utils::hypergeometric_pmf, h_stub)] read_site_projected_values_a121_m12_p6, stub_npop_2, 10, projected_values_case::<2, 6>([1, 2, 1], [1, 2], 6));
-
-// @harness props=C02,C11 tier=quick group=f64 bounds=populations=2,samples=3,assignment=[1,2,1],target=[1,2],called-pattern=111,allele-counts=symbolic,pmf=table-stub timeout=900
-stubs_h!(#[kani::stub(crate::utils::hypergeometric_pmf, h_stub)] read_site_projected_values_a121_m12_p7, stub_npop_2, 10, projected_values_case::<2, 6>([1, 2, 1], [1, 2], 7));
-
-// @harness props=C02,C11 tier=quick group=f64 bounds=populations=2,samples=3,assignment=[2,1,1],target=[2,1],called-pattern=001,allele-counts=symbolic,pmf=table-stub timeout=900
-stubs_h!(#[kani::stub(crate::utils::hypergeometric_pmf, h_stub)] read_site_projected_values_a211_m21_p1, stub_npop_2, 10, projected_values_case::<2, 6>([2, 1, 1], [2, 1], 1));
-
-// @harness props=C02,C11 tier=quick group=f64 bounds=populations=2,samples=3,assignment=[2,1,1],target=[2,1],called-pattern=010,allele-counts=symbolic,pmf=table-stub timeout=900
-stubs_h!(#[kani::stub(crate::utils::hypergeometric_pmf, h_stub)] read_site_projected_values_a211_m21_p2, stub_npop_2, 10, projected_values_case::<2, 6>([2, 1, 1], [2, 1], 2));
-
-// @harness props=C02,C11 tier=quick group=f64 bounds=populations=2,samples=3,assignment=[2,1,1],target=[2,1],called-pattern=011,allele-counts=symbolic,pmf=table-stub timeout=900
-stubs_h!(#[kani::stub(crate::utils::hypergeometric_pmf, h_stub)] read_site_projected_values_a211_m21_p3, stub_npop_2, 10, projected_values_case::<2, 6>([2, 1, 1], [2, 1], 3));
-
-// @harness props=C02,C11 tier=quick group=f64 bounds=populations=2,samples=3,assignment=[2,1,1],target=[2,1],called-pattern=100,allele-counts=symbolic,pmf=table-stub timeout=900
-stubs_h!(#[kani::stub(crate::utils::hypergeometric_pmf, h_stub)] read_site_projected_values_a211_m21_p4, stub_npop_2, 10, projected_values_case::<2, 6>([2, 1, 1], [2, 1], 4));
-
-// @harness props=C02,C11 tier=quick group=f64 bounds=populations=2,samples=3,assignment=[2,1,1],target=[2,1],called-pattern=101,allele-counts=symbolic,pmf=table-stub timeout=900
-stubs_h!(#[kani::stub(crate::utils::hypergeometric_pmf, h_stub)] read_site_projected_values_a211_m21_p5, stub_npop_2, 10, projected_values_case::<2, 6>([2, 1, 1], [2, 1], 5));
-
-// @harness props=C02,C11 tier=quick group=f64 bounds=populations=2,samples=3,assignment=[2,1,1],target=[2,1],called-pattern=110,allele-counts=symbolic,pmf=table-stub timeout=900
-stubs_h!(#[kani::stub(crate::utils::hypergeometric_pmf, h_stub)] read_site_projected_values_a211_m21_p6, stub_npop_2, 10, projected_values_case::<2, 6>([2, 1, 1], [2, 1], 6));
-
-// @harness props=C02,C11 tier=quick group=f64 bounds=populations=2,samples=3,assignment=[2,1,1],target=[2,1],called-pattern=111,allele-counts=symbolic,pmf=table-stub timeout=900
-stubs_h!(#[kani::stub(crate::utils::hypergeometric_pmf, h_stub)] read_site_projected_values_a211_m21_p7, stub_npop_2, 10, projected_values_case::<2, 6>([2, 1, 1], [2, 1], 7));
-
-// @harness props=C02,C11 tier=thorough group=f64 bounds=populations=2,samples=3,assignment=[1,2,0],target=[0,1],called-pattern=101,allele-counts=symbolic,pmf=table-stub timeout=900
-stubs_h!(#[kani::stub(crate::utils::hypergeometric_pmf, h_stub)] read_site_projected_values_a120_m01_p5, stub_npop_2, 8, projected_values_case::<2, 2>([1, 2, 0], [0, 1], 5));
-
-// @harness props=C02,C11 tier=thorough group=f64 bounds=populations=2,samples=3,assignment=[1,2,0],target=[0,1],called-pattern=110,allele-counts=symbolic,pmf=table-stub timeout=900
-stubs_h!(#[kani::stub(crate::utils::hypergeometric_pmf, h_stub)] read_site_projected_values_a120_m01_p6, stub_npop_2, 8, projected_values_case::<2, 2>([1, 2, 0], [0, 1], 6));
-
-// @harness props=C02,C11 tier=thorough group=f64 bounds=populations=2,samples=3,assignment=[1,2,0],target=[0,1],called-pattern=111,allele-counts=symbolic,pmf=table-stub timeout=900
-stubs_h!(#[kani::stub(crate::utils::hypergeometric_pmf, h_stub)] read_site_projected_values_a120_m01_p7, stub_npop_2, 8, projected_values_case::<2, 2>([1, 2, 0], [0, 1], 7));
-
-// @harness props=C02,C11 tier=thorough group=f64 bounds=populations=2,samples=3,assignment=[1,2,2],target=[2,2],called-pattern=001,allele-counts=symbolic,pmf=table-stub timeout=900
-stubs_h!(#[kani::stub(crate::utils::hypergeometric_pmf, h_stub)] read_site_projected_values_a122_m22_p1, stub_npop_2, 13, projected_values_case::<2, 9>([1, 2, 2], [2, 2], 1));
-
-// @harness props=C02,C11 tier=thorough group=f64 bounds=populations=2,samples=3,assignment=[1,2,2],target=[2,2],called-pattern=010,allele-counts=symbolic,pmf=table-stub timeout=900
-stubs_h!(#[kani::stub(crate::utils::hypergeometric_pmf, h_stub)] read_site_projected_values_a122_m22_p2, stub_npop_2, 13, projected_values_case::<2, 9>([1, 2, 2], [2, 2], 2));
-
-// @harness props=C02,C11 tier=thorough group=f64 bounds=populations=2,samples=3,assignment=[1,2,2],target=[2,2],called-pattern=011,allele-counts=symbolic,pmf=table-stub timeout=900
-stubs_h!(#[kani::stub(crate::utils::hypergeometric_pmf, h_stub)] read_site_projected_values_a122_m22_p3, stub_npop_2, 13, projected_values_case::<2, 9>([1, 2, 2], [2, 2], 3));
-
-// @harness props=C02,C11 tier=thorough group=f64 bounds=populations=2,samples=3,assignment=[1,2,2],target=[2,2],called-pattern=100,allele-counts=symbolic,pmf=table-stub timeout=900
-stubs_h!(#[kani::stub(crate::utils::hypergeometric_pmf, h_stub)] read_site_projected_values_a122_m22_p4, stub_npop_2, 13, projected_values_case::<2, 9>([1, 2, 2], [2, 2], 4));
-
-// @harness props=C02,C11 tier=thorough group=f64 bounds=populations=2,samples=3,assignment=[1,2,2],target=[2,2],called-pattern=101,allele-counts=symbolic,pmf=table-stub timeout=900
-stubs_h!(#[kani::stub(crate::utils::hypergeometric_pmf, h_stub)] read_site_projected_values_a122_m22_p5, stub_npop_2, 13, projected_values_case::<2, 9>([1, 2, 2], [2, 2], 5));
-
-// @harness props=C02,C11 tier=thorough group=f64 bounds=populations=2,samples=3,assignment=[1,2,2],target=[2,2],called-pattern=110,allele-counts=symbolic,pmf=table-stub timeout=900
-stubs_h!(#[kani::stub(crate::utils::hypergeometric_pmf, h_stub)] read_site_projected_values_a122_m22_p6, stub_npop_2, 13, projected_values_case::<2, 9>([1, 2, 2], [2, 2], 6));
-
-// @harness props=C02,C11 tier=thorough group=f64 bounds=populations=2,samples=3,assignment=[1,2,2],target=[2,2],called-pattern=111,allele-counts=symbolic,pmf=table-stub timeout=900
-stubs_h!(#[kani::stub(crate::utils::hypergeometric_pmf, h_stub)] read_site_projected_values_a122_m22_p7, stub_npop_2, 13, projected_values_case::<2, 9>([1, 2, 2], [2, 2], 7));
-
-// @harness props=C02,C11 tier=thorough group=f64 bounds=populations=3,samples=3,assignment=[1,2,3],target=[1,1,1],called-pattern=001,allele-counts=symbolic,pmf=table-stub timeout=900
-stubs_h!(#[kani::stub(crate::utils::hypergeometric_pmf, h_stub)] read_site_projected_values_a123_m111_p1, stub_npop_3, 12, projected_values_case::<3, 8>([1, 2, 3], [1, 1, 1], 1));
-
-// @harness props=C02,C11 tier=thorough group=f64 bounds=populations=3,samples=3,assignment=[1,2,3],target=[1,1,1],called-pattern=010,allele-counts=symbolic,pmf=table-stub timeout=900
-stubs_h!(#[kani::stub(crate::utils::hypergeometric_pmf, h_stub)] read_site_projected_values_a123_m111_p2, stub_npop_3, 12, projected_values_case::<3, 8>([1, 2, 3], [1, 1, 1], 2));
-
-// @harness props=C02,C11 tier=thorough group=f64 bounds=populations=3,samples=3,assignment=[1,2,3],target=[1,1,1],called-pattern=011,allele-counts=symbolic,pmf=table-stub timeout=900
-stubs_h!(#[kani::stub(crate::utils::hypergeometric_pmf, h_stub)] read_site_projected_values_a123_m111_p3, stub_npop_3, 12, projected_values_case::<3, 8>([1, 2, 3], [1, 1, 1], 3));
-
-// @harness props=C02,C11 tier=thorough group=f64 bounds=populations=3,samples=3,assignment=[1,2,3],target=[1,1,1],called-pattern=100,allele-counts=symbolic,pmf=table-stub timeout=900
-stubs_h!(#[kani::stub(crate::utils::hypergeometric_pmf, h_stub)] read_site_projected_values_a123_m111_p4, stub_npop_3, 12, projected_values_case::<3, 8>([1, 2, 3], [1, 1, 1], 4));
-
-// @harness props=C02,C11 tier=thorough group=f64 bounds=populations=3,samples=3,assignment=[1,2,3],target=[1,1,1],called-pattern=101,allele-counts=symbolic,pmf=table-stub timeout=900
-stubs_h!(#[kani::stub(crate::utils::hypergeometric_pmf, h_stub)] read_site_projected_values_a123_m111_p5, stub_npop_3, 12, projected_values_case::<3, 8>([1, 2, 3], [1, 1, 1], 5));
-
-// @harness props=C02,C11 tier=thorough group=f64 bounds=populations=3,samples=3,assignment=[1,2,3],target=[1,1,1],called-pattern=110,allele-counts=symbolic,pmf=table-stub timeout=900
-stubs_h!(#[kani::stub(crate::utils::hypergeometric_pmf, h_stub)] read_site_projected_values_a123_m111_p6, stub_npop_3, 12, projected_values_case::<3, 8>([1, 2, 3], [1, 1, 1], 6));
-
-// @harness props=C02,C11 tier=thorough group=f64 bounds=populations=3,samples=3,assignment=[1,2,3],target=[1,1,1],called-pattern=111,allele-counts=symbolic,pmf=table-stub timeout=900
-stubs_h!(#[kani::stub(crate::utils::hypergeometric_pmf, h_stub)] read_site_projected_values_a123_m111_p7, stub_npop_3, 12, projected_values_case::<3, 8>([1, 2, 3], [1, 1, 1], 7));
 
 //@@END SITE_CASES@@
 
